@@ -165,6 +165,9 @@ def extra(R, tier):
         R.cov["traces_validated_against_impl"] += n
         R.cov["evaluations"] += n
         R.cov["drift"] += x["drift"]
+        for d_ in x.get("drift_samples", [])[:1]:
+            if len(R.cov.setdefault("drift_samples", [])) < 3:
+                R.cov["drift_samples"].append(d_)
         for s_, w in x["fails"]:
             if w["clause"] in TREE_CLAUSES or w["clause"] == "KilledGone":
                 R.violation(s_, w)
